@@ -74,14 +74,31 @@ def run_case(ctx, kind_, idx):
         info.update({"x": x, "y": y})
     ctx.count("method:%s" % method)
     ctx.count("mode:%s" % mode)
-    mag = float(np.max(np.abs(y))) or 1.0
-    gaps = np.diff(x)
-    ratio = float(np.max(gaps) / np.min(gaps))
-    srel = SMOOTH_REL * max(1.0, ratio) + tol.cond_x(x) * 100
+    wv0 = None
+    if mode.startswith("weaver") and rng.integers(0, 3):
+        # the grid contract is about the CURRENT series: issue the request after a random history of range-changing
+        # operations (a fresh object cannot tell 'current' from 'original')
+        from . import _weaver_ops as W
+        wv0 = Weaver(x.copy(), y.copy())
+        hist = []
+        for _ in range(int(rng.integers(1, 4))):
+            op = W.gen_op(rng, wv0, allow=["shift_x", "scale_x", "truncate_by_value", "truncate_by_index",
+                                           "append_one_sample", "shift_y", "scale_y", "repeat"])
+            if op is None or (op["op"] == "repeat" and len(wv0.get()[0]) > 60):
+                continue
+            W.apply(wv0, op)
+            hist.append(W.printable(op))
+        if len(wv0.get()[0]) < 4:
+            wv0 = None
+        else:
+            info["history"] = hist
+            x, y = (np.array(a, dtype=float).copy() for a in wv0.get())
+            affine = False          # the history may have bent the data (periodic append, repeat) or changed a, b
+            ctx.count("weaver_after_history")
     try:
         with fp_watch(ctx):
             if mode == "weaver_bad_grid":
-                wv = Weaver(x.copy(), y.copy())
+                wv = wv0 if wv0 is not None else Weaver(x.copy(), y.copy())
                 g = np.linspace(x[0], x[-1], int(rng.integers(4, 30)))
                 which = int(rng.integers(0, 3))
                 if which in (0, 2):
@@ -101,7 +118,7 @@ def run_case(ctx, kind_, idx):
                 ctx.violation("grid_with_other_end_points_accepted", cid, {"grid": g, "case": info})
                 return
             if mode == "weaver_n":
-                wv = Weaver(x.copy(), y.copy())
+                wv = wv0 if wv0 is not None else Weaver(x.copy(), y.copy())
                 n = int(rng.choice([2, 3, 5, 10, 100, 500, int(rng.integers(2, 501))]))
                 info["n"] = n
                 wv.interpolate(n=n, method=method)
@@ -125,7 +142,7 @@ def run_case(ctx, kind_, idx):
                 if mode == "weaver_grid":
                     inner = new_x[(new_x > x[0]) & (new_x < x[-1])]
                     new_x = np.concatenate([[x[0]], inner, [x[-1]]])
-                    wv = Weaver(x.copy(), y.copy())
+                    wv = wv0 if wv0 is not None else Weaver(x.copy(), y.copy())
                     arg = new_x if rng.integers(0, 2) else [float(v) for v in new_x]
                     wv.interpolate(new_x=arg, method=method)
                     gx, got = wv.get()
@@ -137,8 +154,21 @@ def run_case(ctx, kind_, idx):
                 else:
                     xin, _a = gen.as_container(rng, x, allow=("array", "list", "readonly"))
                     yin, _b = gen.as_container(rng, y, allow=("array", "list", "readonly"))
-                    got = interpolate(xin, yin, new_x if rng.integers(0, 2) else [float(v) for v in new_x], method=method)
+                    if np.all(x == np.round(x)) and rng.integers(0, 2):
+                        # integer-valued abscissae: an integer-dtype grid (arange / list of ints) is the natural request
+                        lo_, hi_ = int(x[0]) - 2, int(x[-1]) + 2
+                        new_x = np.unique(rng.integers(lo_, hi_ + 1, int(rng.integers(2, 30)))).astype(float)
+                        garg = new_x.astype(np.int64) if rng.integers(0, 2) else [int(v) for v in new_x]
+                        info["grid_dtype"] = "int"
+                        ctx.count("integer_dtype_grid")
+                    else:
+                        garg = new_x if rng.integers(0, 2) else [float(v) for v in new_x]
+                    got = interpolate(xin, yin, garg, method=method)
                 ctx.judged()
+            mag = float(np.max(np.abs(y))) or 1.0
+            gaps = np.diff(x)
+            ratio = float(np.max(gaps) / np.min(gaps))
+            srel = SMOOTH_REL * max(1.0, ratio) + tol.cond_x(x) * 100
             if not (isinstance(got, np.ndarray) and got.shape == (len(new_x),)):
                 ctx.violation("result_shape", cid, {"type": type(got).__name__, "case": info})
                 return
